@@ -54,7 +54,9 @@ Bases == SeqOf(PartBases) \o <<
   [f |-> << <<Plain(3)>>, <<Plain(1), R(2, 1, 0, 0, 0)>> >>, lay |-> "pipe_newline", sv |-> 0],
   \* one entry per line, every line ending in a comma (the field ends ",\n")
   [f |-> << <<Plain(1)>> >>, lay |-> "comma_newline", sv |-> 0],
-  [f |-> << <<Plain(1)>>, <<Plain(2), Plain(3)>> >>, lay |-> "comma_newline", sv |-> 0]
+  [f |-> << <<Plain(1)>>, <<Plain(2), Plain(3)>> >>, lay |-> "comma_newline", sv |-> 0],
+  \* a LONG multi-line field (one step from it: the edited item may be far from both ends)
+  [f |-> << <<Plain(6)>>, <<R(7, 1, 0, 0, 0)>>, <<Plain(8), Plain(9)>>, <<Plain(1)>>, <<R(2, 2, 1, 0, 0)>>, <<Plain(3)>> >>, lay |-> "long", sv |-> 0]
 >>
 
 VARIABLES field, base, hist
@@ -110,7 +112,8 @@ Init == \E b \in 1..Len(Bases) : base = b /\ field = Bases[b].f /\ hist = <<>>
 \* histories from the part-subset x inner-layout bases stay one step long (there are 72 of them): the deeper histories
 \* start from the other bases
 NPart == Cardinality(PartBases)
-Bound == Len(hist) <= (IF base <= NPart THEN 1 ELSE Depth) /\ Len(field) <= MaxE /\ \A i \in 1..Len(field) : Len(field[i]) <= MaxR
+IsLong == Bases[base].lay = "long"
+Bound == Len(hist) <= (IF base <= NPart \/ IsLong THEN 1 ELSE Depth) /\ Len(field) <= (IF IsLong THEN MaxE + 4 ELSE MaxE) /\ \A i \in 1..Len(field) : Len(field[i]) <= MaxR
 
 \* the list model never holds an empty entry (removing the last alternative removes the entry)
 NoEmptyEntry == \A i \in 1..Len(field) : field[i] # <<>>
